@@ -855,6 +855,30 @@ def where_of(fn, node=None):
     return "%s (in %s)" % (fn.loc(), fn.id)
 
 
+def feature_gates():
+    """(additive gates, negative gates) in the non-test sources of the workspace. The facts come
+    from the all-features build; it is a superset of every configuration iff no gate is negative."""
+    pos, neg = 0, []
+    for root, dirs, fs in os.walk(REPO):
+        dirs[:] = [d for d in dirs if d not in ("target", ".git", "tests", "fuzz", "node_modules")]
+        for f in fs:
+            if not f.endswith(".rs"):
+                continue
+            p = os.path.join(root, f)
+            try:
+                txt = open(p, encoding="utf-8", errors="replace").read()
+            except OSError:
+                continue
+            for m in re.finditer(r"cfg(?:_attr)?\s*\(([^\n]*)", txt):
+                if "feature" not in m.group(1):
+                    continue
+                if re.search(r"not\s*\([^)]*feature", m.group(1)):
+                    neg.append("%s:%d" % (os.path.relpath(p, REPO), txt.count("\n", 0, m.start()) + 1))
+                else:
+                    pos += 1
+    return pos, neg
+
+
 def load_known_findings():
     p = os.path.join(VERIF, "known_findings.json")
     if not os.path.exists(p):
